@@ -210,7 +210,51 @@ def routes(job):
     return part
 
 
+def very_deep(job):
+    """'Each tile is exactly tiled by its four children', judged relative to the tile size far below the
+    enumeration bound (depths 30-40): the children's corners are the parent's corners, the great-circle
+    midpoints of its sides and the midpoint of its dividing diagonal, to 1e-3 of a tile width."""
+    from toasty import toast
+    from toasty.pyramid import Pos
+
+    positions, planetary = job
+    part = Part()
+    csn = "planetary" if planetary else "astronomical"
+    for (n, x, y) in positions:
+        cfg = {"pos": (n, x, y), "coordsys": csn, "very_deep": True}
+        part.case(nontrivial=True)
+        try:
+            par_t = toast.create_single_tile(Pos(n, x, y), coordsys=cs_of(planetary))
+            kids = [[toast.create_single_tile(Pos(n + 1, 2 * x + i, 2 * y + j), coordsys=cs_of(planetary)) for i in range(2)] for j in range(2)]
+        except Exception as e:
+            part.violation("very-deep/raises:%s/coordsys=%s" % (type(e).__name__, csn), "%r: %r" % (cfg, e), cfg)
+            continue
+        pc = tvec(par_t)  # ul, ur, lr, ll
+        w = max(tg.angdist(pc[0], pc[1]), tg.angdist(pc[1], pc[2]))
+        tol = 1e-3 * w + 4e-16
+        mid = lambda a, b: tg._norm(a + b)
+        top, right, bottom, left = mid(pc[0], pc[1]), mid(pc[1], pc[2]), mid(pc[2], pc[3]), mid(pc[3], pc[0])
+        centre = mid(pc[0], pc[2]) if not par_t.increasing else mid(pc[1], pc[3])
+        want = {
+            (0, 0): [pc[0], top, centre, left],
+            (0, 1): [top, pc[1], right, centre],
+            (1, 1): [centre, right, pc[2], bottom],
+            (1, 0): [left, centre, bottom, pc[3]],
+        }
+        worst = 0.0
+        for (j, i), ws in want.items():
+            kc = tvec(kids[j][i])
+            for k in range(4):
+                worst = max(worst, float(tg.angdist(kc[k], ws[k])))
+        if worst > tol:
+            part.violation("very-deep/children-do-not-tile-parent/coordsys=%s" % csn, "%r: a child's corner is %.3g rad (%.3g tile widths) away from the parent's corner / side midpoint / diagonal midpoint" % (cfg, worst, worst / w), cfg)
+    part.sample({"very_deep": True, "coordsys": csn, "example": positions[0]})
+    return part
+
+
 def _job(j):
+    if j[0] == "very-deep":
+        return very_deep(j[1:])
     return full_levels(j[1:]) if j[0] == "full" else routes(j[1:])
 
 
@@ -220,7 +264,8 @@ def run(tier, seed):
     nlat = 26 if tier == "quick" else 28
     rep.rule = (
         "every tile at depths 1..%d from full enumeration vs the 3-D reference (corners, diagonal, areas, nesting, neighbours), both coordinate systems; "
-        "single-tile, path-filtered and point-lookup routes for every tile to depth %d and a deterministic deep lattice to depth %d; every tile is non-trivial"
+        "single-tile, path-filtered and point-lookup routes for every tile to depth %d and a deterministic deep lattice to depth %d; at depths 30-40 on a 7x7 lattice the four children "
+        "against the parent's corners and side/diagonal midpoints to 1e-3 tile widths; every tile is non-trivial"
         % (D, 4 if tier == "quick" else 5, nlat)
     )
     rep.assumptions = ["depths beyond the bound are covered only on the lattice x,y in {0,1,2^(n-1)-1,2^(n-1),2^n-2,2^n-1}", "tolerances: 1e-9 rad against the reference, 1e-12 between routes"]
@@ -235,6 +280,15 @@ def run(tier, seed):
     lat = [p for p in lattice(nlat) if p[0] > rd]
     for i in range(k):
         jobs.append(("routes", lat[i::k], bool(i % 2), 0))
+    # far below the bound: relative to the tile size
+    vd = []
+    for n in ((30, 34, 38) if tier == "quick" else (30, 32, 34, 36, 38, 40)):
+        side = 2**n
+        vals = [0, 1, side // 2 - 1, side // 2, side - 1, side // 3, (5 * side) // 7]
+        vd += [(n, x, y) for x in vals for y in vals]
+    for i in range(4):
+        jobs.append(("very-deep", vd[i::4], bool(i % 2)))
+        jobs.append(("very-deep", vd[i::4], not bool(i % 2)))
     par.pmap(_job, jobs, rep)
     return rep.finish()
 
@@ -242,7 +296,9 @@ def run(tier, seed):
 def replay(payload):
     r = payload["replay"]
     planetary = r.get("coordsys") == "planetary"
-    if "pos" in r and r.get("route") != "generate_tiles":
+    if r.get("very_deep"):
+        p = very_deep(([tuple(r["pos"])], planetary))
+    elif "pos" in r and r.get("route") != "generate_tiles":
         p = routes(([tuple(r["pos"])], planetary, min(r["pos"][0], 5)))
     else:
         p = full_levels((min(6, r.get("pos", [r.get("level", 3)])[0]), planetary))
